@@ -74,6 +74,12 @@ UNIT = dict(
         "HedgeDelay::get_delay": dict(file="config", rules=[("sub", "R10-fn-call", r"(?<![\w.:])([a-z_]\w*)\(attempt\)", r"\1.vx_call(attempt)", 1)]),
         "Hedge::poll_ready@Service": dict(rules=[("R10p", "HedgeError::Inner")]),
     },
+    frame=[
+        # the select! shim takes a result that has arrived; that rests on the result arm being examined before the hedge timer:
+        # otherwise a poll that finds a successful response AND an expired delay may start another attempt instead of resolving
+        dict(name="an_available_response_is_never_passed_over_for_an_expired_hedge_delay", tags=["C12"], select_timer_last=r"\bdelay_fut\b|\bsleep(_until)?\s*\(",
+             glob="crates/tower-resilience-hedge/src/lib.rs", violation=True),
+    ],
     types=[
         ("enum", "HedgeError", "error"),
         ("enum", "HedgeDelay", "config"),
